@@ -7,6 +7,7 @@ package main
 import (
 	"fmt"
 	"go/types"
+	"sort"
 	"strings"
 
 	"golang.org/x/tools/go/ssa"
@@ -422,6 +423,122 @@ func runC25(p *Prog, r *Report) {
 		}
 	}
 	r.Floor("R-rmw", "read-then-write-back sites of tracking lists", nrmw, 3)
+
+	// ---- R-uar: nothing the release disposes of is touched after the reader count was given back ----
+	// decReadersCount may be the last reference: the cache manager then calls fsFile.Release, which closes
+	// the file and every handle parked in the lists Release walks. A handle parked there afterwards is never closed.
+	if rel := p.Func("(*fsFile).Release"); rel != nil {
+		disposed := map[*types.Var]bool{}
+		var collect func(f *ssa.Function, depth int)
+		collect = func(f *ssa.Function, depth int) {
+			for _, b := range f.Blocks {
+				for _, in := range b.Instrs {
+					if fa, ok := in.(*ssa.FieldAddr); ok && typeNameOf(fa.X) == "fsFile" {
+						disposed[fieldVar(fa.X.Type(), fa.Field)] = true
+					}
+					if c, ok := in.(*ssa.Call); ok && depth < 2 {
+						if g := c.Call.StaticCallee(); g != nil && inModule(g) {
+							collect(g, depth+1)
+						}
+					}
+				}
+			}
+		}
+		collect(rel, 0)
+		// keep the fields that are re-assigned on an existing (not freshly allocated) fsFile: only those can change after publication
+		mutable := map[*types.Var]bool{}
+		for _, fn := range p.funcsIn("") {
+			for _, b := range fn.Blocks {
+				for _, in := range b.Instrs {
+					if st, ok := in.(*ssa.Store); ok {
+						if base, fv := fieldOfAddr(st.Addr); fv != nil && disposed[fv] && typeNameOf(base) == "fsFile" {
+							if _, fresh := base.(*ssa.Alloc); !fresh {
+								mutable[fv] = true
+							}
+						}
+					}
+				}
+			}
+		}
+		var names []string
+		for fv := range mutable {
+			names = append(names, fv.Name())
+		}
+		sort.Strings(names)
+		r.Floor("R-uar", "fields of fsFile that Release walks and that change after publication ("+strings.Join(names, ",")+")", len(mutable), 1)
+		touchMemo := map[*ssa.Function]int8{}
+		var touches func(f *ssa.Function, depth int) bool
+		touches = func(f *ssa.Function, depth int) bool {
+			if v, ok := touchMemo[f]; ok {
+				return v == 1
+			}
+			touchMemo[f] = 0
+			res := false
+			for _, b := range f.Blocks {
+				for _, in := range b.Instrs {
+					if fa, ok := in.(*ssa.FieldAddr); ok && typeNameOf(fa.X) == "fsFile" && mutable[fieldVar(fa.X.Type(), fa.Field)] {
+						res = true
+					}
+					if c, ok := in.(ssa.CallInstruction); ok && depth < 3 {
+						if g := c.Common().StaticCallee(); g != nil && inModule(g) && g != rel && touches(g, depth+1) {
+							res = true
+						}
+					}
+				}
+			}
+			if res {
+				touchMemo[f] = 1
+			}
+			return res
+		}
+		isDec := func(in ssa.Instruction) bool {
+			c, ok := in.(ssa.CallInstruction)
+			if !ok {
+				return false
+			}
+			if g := c.Common().StaticCallee(); g != nil {
+				return g.Name() == "decReadersCount" && recvTypeName(g) == "fsFile"
+			}
+			return c.Common().IsInvoke() && c.Common().Method.Name() == "DecReadersCount"
+		}
+		nuar := 0
+		for _, fn := range p.funcsIn("") {
+			if !inFS(fn) || fn == rel {
+				continue
+			}
+			if n := fn.Name(); n == "decReadersCount" || n == "DecReadersCount" {
+				continue
+			}
+			for _, b := range fn.Blocks {
+				for _, in := range b.Instrs {
+					if !isDec(in) {
+						continue
+					}
+					nuar++
+					hit, path := reachAvoiding(fn, in, func(i ssa.Instruction) bool {
+						if fa, ok := i.(*ssa.FieldAddr); ok && typeNameOf(fa.X) == "fsFile" && mutable[fieldVar(fa.X.Type(), fa.Field)] {
+							return true
+						}
+						if c, ok := i.(ssa.CallInstruction); ok && !isDec(i) {
+							if g := c.Common().StaticCallee(); g != nil && inModule(g) && g != rel && touches(g, 1) {
+								return true
+							}
+						}
+						return false
+					}, nil, nil)
+					pos := p.Pos(in.Pos())
+					if hit != nil {
+						pos = p.Pos(hit.Pos())
+					}
+					r.Check("R-uar", fmt.Sprintf("%s: after giving the reader count back nothing is parked in (or read from) the lists fsFile.Release walks", funcName(fn)), hit == nil, pos,
+						"the reader count is given back (which may release the file and close every parked handle) before this function touches "+strings.Join(names, ",")+": a handle parked after the release is never closed", blocksString(p, path)...)
+				}
+			}
+		}
+		r.Floor("R-uar", "decReadersCount call sites", nuar, 4)
+	} else {
+		r.Undecided("R-uar", "(*fsFile).Release", "not found")
+	}
 
 	// ---- E8 ----
 	tbl := &lockTable{
